@@ -36,6 +36,7 @@ def shards(tier, seed):
 		                reps=5 if tier == 'quick' else 50, env={'OMP_NUM_THREADS': '16', 'OMP_WAIT_POLICY': 'active' if active else 'passive'}))
 	for i in range(2 if tier == 'quick' else 8):
 		out.append(dict(name=f'siglist-history-{i}', kind='slhist', sub=300 + i, nhist=15 if tier == 'quick' else 60, env={'OMP_NUM_THREADS': '4'}))
+	out.append(dict(name='same-file-operands', kind='samefile', sub=800, rounds=6 if tier == 'quick' else 60))
 	out.append(dict(name='two-threads', kind='twothreads', sub=700, rounds=6 if tier == 'quick' else 60, env={'OMP_NUM_THREADS': '4'}))
 	out.append(dict(name='asan-cfg', kind='cfg', sub=500, ncoll=3 if tier == 'quick' else 10, nconf=40 if tier == 'quick' else 120, reps=2, sanitizer='asan',
 	                env={'OMP_NUM_THREADS': '8'}))
@@ -291,6 +292,8 @@ def run_shard(sh, ctx):
 		return run_siglist_history(sh, ctx, gm)
 	if sh['kind'] == 'twothreads':
 		return run_two_threads(sh, ctx, gm)
+	if sh['kind'] == 'samefile':
+		return run_same_file(sh, ctx, gm)
 
 	from gambit._cython.threads import omp_set_num_threads, omp_get_max_threads, get_thread_ids
 	rng = random.Random(f'C05-{ctx.seed}-{sh["sub"]}')
@@ -423,6 +426,58 @@ def run_siglist_history(sh, ctx, gm):
 		ctx.case(('slhist', sh['sub'], h, trace), nontrivial=True, sample=dict(history=trace) if h == 0 else None)
 
 
+def run_same_file(sh, ctx, gm):
+	"""Queries and references are both taken from ONE open container (slices, index lists and masks of the same signature file or
+	array, obtained before the call and kept alive), compared all-against-all in chunks: "compare part of my collection with the
+	rest of it". Every cell must be the pairwise value, and the operands must still hold their signatures afterwards."""
+	rng = random.Random(f'C05-sf-{ctx.seed}')
+	for rd in range(sh['rounds']):
+		n = rng.choice([24, 64, 90])
+		coll = gen_collection(rng, n)
+		dt = rng.choice(['u2', 'u4', 'u8'])
+		kind = rng.choice(['hdf5', 'hdf5', 'sigarray', 'annotated'])
+		cont, arrs, closer = build_container(kind, coll, dt, ctx, f'sf{rd}')
+		try:
+			def part():
+				c = rng.random()
+				if c < 0.5:
+					a = rng.randrange(n); b = rng.randint(a + 1, n)
+					return slice(a, b), list(range(a, b))
+				if c < 0.8:
+					l = [rng.randrange(n) for _ in range(rng.randint(1, n // 2))]
+					return l, l
+				m = np.array([rng.random() < 0.4 for _ in range(n)]); m[rng.randrange(n)] = True
+				return m, [i for i in range(n) if m[i]]
+			for rep in range(4):
+				(qi, qpos), (ri, rpos) = part(), part()
+				whole = rep % 2 == 0
+				qsub = cont[qi]
+				rsub = cont if whole else cont[ri]
+				if whole:
+					rpos = list(range(n))
+				extra = cont[part()[0]]       # another part taken after the operands (and not used): must not disturb them
+				chunk = rng.choice([None, 1, 5, 16, 1000])
+				w = dict(container=kind, n=n, dtype=dt, queries=repr(qi)[:80], refs='the whole container' if whole else repr(ri)[:80], chunksize=chunk)
+				ctx.case(('samefile', rd, rep, kind, n), nontrivial=True, sample=w if rd == 0 and rep < 2 else None)
+				ctx.count(f'same_container_operands:{kind}')
+				exp = oracle_matrix(gm, [arrs[i] for i in qpos], [arrs[i] for i in rpos])
+				try:
+					got = gm.jaccarddist_matrix(qsub, rsub, chunksize=chunk)
+				except Exception as e:
+					ctx.violation('bulk-raises', f'jaccarddist_matrix(part, other part of the same {kind}) raised {type(e).__name__}: {e}', w)
+					continue
+				if not cmp_bits(ctx, got, exp, 'cell-bits', f'queries and references taken from the same {kind}', w):
+					continue
+				for name, sub, pos in (('queries', qsub, qpos), ('references', rsub, rpos)):
+					ctx.evals += 1
+					if len(sub) != len(pos) or not all(np.array_equal(sub[j], arrs[i]) for j, i in enumerate(pos)):
+						ctx.violation('operand-changed', f'the {name} sub-collection no longer holds its signatures after the call', w)
+						break
+				del extra
+		finally:
+			closer()
+
+
 def run_two_threads(sh, ctx, gm):
 	"""Two Python threads call the bulk functions at the same time on shared references (each with its own output): every cell of
 	both results must still be the pairwise value (the native kernel releases the GIL, so the calls really overlap)."""
@@ -438,6 +493,7 @@ def run_two_threads(sh, ctx, gm):
 		sl = SignatureList(list(arrs), None, dtype=np.dtype(dt))
 		qs = [np.array(rng.choice(coll), dtype=dt) for _ in range(4)]
 		exp = oracle_matrix(gm, qs, arrs)
+		h5, _a, h5close = build_container('hdf5', coll, dt, ctx, f'tt{rd}')
 		omp_set_num_threads(rng.choice([1, 2, 4]))
 		results, errors = {}, []
 		barrier = threading.Barrier(2)
@@ -451,11 +507,14 @@ def run_two_threads(sh, ctx, gm):
 				results[tid] = out
 			except Exception as e:
 				errors.append(f'{type(e).__name__}: {e}')
-		ts = [threading.Thread(target=work, args=(0, sa)), threading.Thread(target=work, args=(1, sa if rd % 2 else sl))]
+		shared = [(sa, sa), (sa, sl), (h5, h5)][rd % 3]
+		ts = [threading.Thread(target=work, args=(0, shared[0])), threading.Thread(target=work, args=(1, shared[1]))]
 		[t.start() for t in ts]; [t.join(600) for t in ts]
+		h5close()
 		ctx.case(('2t', rd, len(coll), dt), nontrivial=True)
 		ctx.count('two_thread_rounds')
-		w = dict(n=len(coll), dtype=dt, round=rd)
+		ctx.count(f'two_thread_shared:{["in-memory array", "array + list", "one open signature file"][rd % 3]}')
+		w = dict(n=len(coll), dtype=dt, round=rd, shared=["in-memory array", "array + list", "one open signature file"][rd % 3])
 		if errors:
 			ctx.violation('raises-under-two-threads', f'bulk call raised when two threads used the library at once: {errors[0]}', w)
 			continue
